@@ -92,6 +92,8 @@ pub(crate) trait FixedChannelRegion: ChannelRegion {
     /// Data rate mandated for join requests on the 500 kHz channels 64..=71
     /// (SF8/500 kHz: DR4 in US915, DR6 in AU915).
     const JOIN_DR_500KHZ: DR;
+    /// Highest uplink data rate; the data rates above it are downlink-only.
+    const MAX_UPLINK_DR: u8;
     fn uplink_channels() -> &'static [u32; 72];
     fn downlink_channels() -> &'static [u32; 8];
     fn get_rx_datarate(tx_dr: DR, rx1_dr_offset: u8, window: &Window) -> DR;
@@ -176,6 +178,10 @@ impl<F: FixedChannelRegion> RegionHandler for FixedChannelPlan<F> {
 
     fn get_datarate(&self, dr: u8) -> Option<&Datarate> {
         F::datarates().get(dr as usize)?.as_ref()
+    }
+
+    fn is_uplink_datarate(&self, dr: u8) -> bool {
+        dr <= F::MAX_UPLINK_DR && self.get_datarate(dr).is_some()
     }
 
     fn select_tx_channel<RNG: RngCore>(
